@@ -71,6 +71,10 @@ pub mod k {
     pub const ZRTT: i128 = 44; // 0 none; 1 accepted / 2 rejected 0-RTT: warm-up connection, then a second one with into_0rtt()
     pub const STOP_EVERY: i128 = 45; // 1: STOP_AT applies to every uni stream, not only the first
     pub const EARLY_BYTES: i128 = 46; // bytes written on each early (0-RTT) stream
+    pub const RESET_EVERY: i128 = 47; // 1: RESET_AT applies to every uni writer, not only the first
+    pub const RECV_RESET_MODE: i128 = 48; // 1: server readers of uni streams await received_reset() instead of reading
+    pub const RESET_POLL_DELAY_US: i128 = 49; // ... after sleeping that long (the reset has arrived, the driver is idle)
+    pub const RESET_HOLD_US: i128 = 50; // ... and keep the RecvStream that long afterwards
     pub const MAX_TIME: i128 = 52;
 }
 
@@ -93,6 +97,7 @@ pub const O_WRITE_ALL: i128 = 15;
 pub const O_HS_CONFIRMED: i128 = 16;
 pub const O_STOPPED_DETACHED: i128 = 17;
 pub const O_AUTH: i128 = 18;
+pub const O_RECV_RESET: i128 = 19;
 pub const O_SLEEP: i128 = 90;
 pub const O_INTERNAL: i128 = 91;
 
@@ -776,7 +781,7 @@ async fn client_uni(cx: Ctx, i: usize) {
             cx.h_new(2, sid);
             cx.res(0, sid, 0, true);
             let total = p.get(k::STREAM_BYTES, 5000) as usize;
-            let reset_at = if i == 0 { p.get(k::RESET_AT, -1) } else { -1 };
+            let reset_at = if i == 0 || p.get(k::RESET_EVERY, 0) == 1 { p.get(k::RESET_AT, -1) } else { -1 };
             let ok = write_job(&cx, &mut send, sid, total, 1, reset_at).await;
             let sw = p.get(k::STOPPED_WAIT, 1);
             if ok && p.get(k::IMPLICIT_FINISH, 0) == 1 {
@@ -1177,9 +1182,33 @@ async fn acc_uni_on(cx: Ctx, conn: Connection) {
                 cx.h_new(3, sid);
                 let stop_at = if sid == 2 || p.get(k::STOP_EVERY, 0) == 1 { p.get(k::STOP_AT, -1) } else { -1 };
                 let delay = p.get(k::READ_DELAY_US, 0) as u64;
+                let rr_mode = p.get(k::RECV_RESET_MODE, 0);
+                let rr_delay = p.get(k::RESET_POLL_DELAY_US, 0) as u64;
+                let rr_hold = p.get(k::RESET_HOLD_US, 0) as u64;
                 cx.spawn(move |c2| async move {
                     let mut recv = recv;
-                    read_job(&c2, &mut recv, sid, 1, stop_at, delay).await;
+                    if rr_mode == 1 {
+                        // learn of the peer's reset through received_reset() — possibly long after it
+                        // arrived, when the driver has nothing else to do — and KEEP the handle
+                        for (d, first) in [(rr_delay, true), (rr_hold, false)] {
+                            if d > 0 {
+                                c2.st.cur_op.set((-2, O_SLEEP, -1));
+                                c2.sleep(d).await;
+                                c2.st.cur_op.set((-1, 0, -1));
+                            }
+                            if first {
+                                let r = op!(c2, O_RECV_RESET, sid, true, recv.received_reset());
+                                match r {
+                                    Ok(Some(code)) => c2.res(1, code.into_inner() as i128, 0, true),
+                                    Ok(None) => c2.res(0, 0, 0, true),
+                                    Err(quinn::ResetError::ConnectionLost(e)) => c2.res(10 + conn_err(&e), 0, 0, true),
+                                    Err(quinn::ResetError::ZeroRttRejected) => c2.res(23, 0, 0, true),
+                                }
+                            }
+                        }
+                    } else {
+                        read_job(&c2, &mut recv, sid, 1, stop_at, delay).await;
+                    }
                     c2.h_drop(3, sid);
                     drop(recv);
                 });
